@@ -19,6 +19,8 @@ func init() {
 func eqFieldsAtom(isX, isY func(ssa.Value) bool) core.Atom { return cmpAtom(isX, isY, "==") }
 
 func c30(r *core.Run) {
+	recoverOnCurve(r, "C30.G3", "RecoverEIP712")
+	c30CreditedNotShared(r)
 	w := r.W
 	const CS = "pkg/settlement/traffic/cheque.chequeStore"
 	const CQ = "pkg/settlement/traffic/cheque.Cheque"
